@@ -3,6 +3,8 @@ CONSTANTS
     Replies <- MCReplies
     Delays = {"none", "short", "long"}
     Prompts = {"fast", "slow"}
+    Signals = {"none", "one", "stream"}
+    OnEintr = "fail"
     DeadlineFrom = "io"
     EofCheck = "eof"
     WriteMode = "write"
